@@ -895,7 +895,8 @@ class T:
         AA["bw"], AA["B"] = self.bw, self.B
         exp = ORACLE[spec](AA)
         res = []
-        names = (fname, fname + "_fast") if fname in PAIRS else (fname,)
+        # (in a SAFE_FAST build the fast edition *is* the public name: there is no separate f_fast symbol)
+        names = (fname, fname + "_fast") if fname in PAIRS and self.lib.has(fname + "_fast") else (fname,)
         for nm in names:
             if isolate:
                 st, r = self.isolated(nm, spec, A, alias, isolate)
@@ -992,7 +993,7 @@ def _u_scalar(t, bits, w, orc, fns):
         if f == "NegInv" and w % 2 == 0:
             continue                                        # \pre w odd
         e = orc[f](w)
-        names = (pfx + f, pfx + f + "_fast") if pfx + f in PAIRS else (pfx + f,)
+        names = (pfx + f, pfx + f + "_fast") if pfx + f in PAIRS and lib.has(pfx + f + "_fast") else (pfx + f,)
         rs = []
         for nm in names:
             r = getattr(lib, nm)(w)
